@@ -50,15 +50,15 @@ ASSUMPTIONS = [
     "a probe that raises must raise the same exception type in the fresh "
     "image",
 ]
-FLOORS = {"argument_snapshot": 3000, "probe_compared": 250,
+FLOORS = {"same_container_refilled": 300, "argument_snapshot": 3000, "probe_compared": 250,
           "history_call": 1500, "returned_object_mutated": 300}
 SHARDS = {"quick": 16, "thorough": 64}
 TIMEOUT = {"quick": 900, "thorough": 6 * 3600}
 FAMILIES = ["place", "chain", "minimise", "bitfield", "objects", "route",
             "minimise_related", "route_related", "machine_reuse",
-            "place_related"]
+            "place_related", "same_objects"]
 RELATED = ("minimise_related", "route_related", "machine_reuse",
-           "place_related")
+           "place_related", "same_objects")
 
 
 def plan(tier):
@@ -196,6 +196,30 @@ def _has_tag(b, tag):
 
 
 _KEPT_MACHINES = {}
+_KEPT = {}
+
+
+def keep(flag, role, new, ctx=None):
+    """The application's long-lived container for `role` (its one vertex
+    dictionary, net list, constraint list, key dictionary, table ...): the
+    same OBJECT is handed to the library call after call, emptied and
+    refilled in place by its owner in between.  What a call remembers
+    about an object it was given must not outlive the owner's edits.  (In
+    a fresh interpreter nothing is kept, the new object itself is used.)"""
+    if not flag:
+        return new
+    kept = _KEPT.get(role)
+    if kept is None or type(kept) is not type(new):
+        _KEPT[role] = new
+        return new
+    if isinstance(kept, dict):
+        kept.clear()
+        kept.update(new)
+    else:
+        kept[:] = new
+    if ctx is not None:
+        ctx.hit("same_container_refilled")
+    return kept
 APP_TAG_SETS = [set(t) for t in c08.TAGSETS]
 
 
@@ -307,6 +331,31 @@ def gen(cls, idx, rng, tier):
         if rng.random() < .5:
             history.insert(at, (("place", first), False))
         probe = ("place", second)
+    elif cls == "same_objects":
+        # the application keeps ONE object per role (vertex dictionary, net
+        # list, constraint list, key dictionary, placement / allocation /
+        # route dictionaries, table) and refills it for every problem
+        fam = rng.choice(["place", "chain", "chain", "minimise"])
+        history = history[:2]
+        for _ in range(rng.randint(1, 3)):
+            d = gen_call(fam, rng, tier)
+            d[1]["keep"] = True
+            history.append((d, False))
+        probe = gen_call(fam, rng, tier)
+        probe[1]["keep"] = True
+        if fam == "minimise" and rng.random() < .6:
+            # the same table with a few entries replaced (same length)
+            prev = history[-1][0]
+            t2 = dict(prev[1])
+            ents = list(t2["entries"])
+            for _ in range(rng.randint(1, 3)):
+                if ents:
+                    i = rng.randrange(len(ents))
+                    r_, k_, m_, s_ = ents[i]
+                    ents[i] = (sorted(set(r_) ^ {rng.randrange(6, 24)}) or
+                               [7], k_, m_, s_)
+            t2["entries"] = ents
+            probe = ("minimise", t2, probe[2], None)
     elif cls == "route_related":
         small, big = related_routes(rng)
         history = history[:4]
@@ -442,9 +491,11 @@ def execute(desc, ctx=None, mutate=False, seed=0, scramble=False):
         case = desc[1]
         exc = imp("rig.place_and_route.exceptions")
         machine = par.build_machine(case["machine"])
-        vr = par.build_vertices(case["vertices"])
-        nets = par.build_nets(case["nets"])
-        cons = par.build_constraints(case["constraints"])
+        kp = case.get("keep")
+        vr = keep(kp, "vr", par.build_vertices(case["vertices"]), ctx)
+        nets = keep(kp, "nets", par.build_nets(case["nets"]), ctx)
+        cons = keep(kp, "cons", par.build_constraints(case["constraints"]),
+                    ctx)
         placer, kw = case["placer"], dict(case["kw"])
         if placer.startswith("sa-"):
             fn = imp("rig.place_and_route.place.sa").place
@@ -558,12 +609,13 @@ def execute(desc, ctx=None, mutate=False, seed=0, scramble=False):
                     for it in new - mine:
                         mine.add(it)
                 machine = kept
-        vr = par.build_vertices(case["vertices"])
-        nets = par.build_nets(case["nets"])
+        kp = case.get("keep")
+        vr = keep(kp, "vr", par.build_vertices(case["vertices"]), ctx)
+        nets = keep(kp, "nets", par.build_nets(case["nets"]), ctx)
         cd = list(case["constraints"]) + [("reserve", "Cores", 0, 1, None)]
-        cons = par.build_constraints(cd)
-        net_keys = {n: (0x1000 + 16 * i, 0xfffffff0)
-                    for i, n in enumerate(nets)}
+        cons = keep(kp, "cons", par.build_constraints(cd), ctx)
+        net_keys = keep(kp, "net_keys", {n: (0x1000 + 16 * i, 0xfffffff0)
+                                         for i, n in enumerate(nets)}, ctx)
         rng = _random.Random(case["seed"])
         placer = case["placer"]
         if placer == "sa-c":
@@ -585,12 +637,14 @@ def execute(desc, ctx=None, mutate=False, seed=0, scramble=False):
                       cons=cons)
             pl = pf(vr, nets, machine, cons, **pkw)
             w.verify()
+            pl = keep(kp, "placements", pl, ctx)
             res["placements"] = sorted((repr(v), list(xy))
                                        for v, xy in pl.items())
             w = Watch(ctx, "allocate", vr=vr, nets=nets, machine=machine,
                       cons=cons, placements=pl)
             al = rp.allocate(vr, nets, machine, cons, pl)
             w.verify()
+            al = keep(kp, "allocations", al, ctx)
             res["allocations"] = sorted(
                 (repr(v), sorted((repr(r), s.start, s.stop)
                                  for r, s in a.items()))
@@ -600,6 +654,7 @@ def execute(desc, ctx=None, mutate=False, seed=0, scramble=False):
             routes = rp.route(vr, nets, machine, cons, pl, al,
                               radius=case["radius"])
             w.verify()
+            routes = keep(kp, "routes", routes, ctx)
             res["routes"] = [json.loads(json.dumps(snap(routes[n])))
                              for n in nets]
             if kind == "chain":
@@ -609,7 +664,7 @@ def execute(desc, ctx=None, mutate=False, seed=0, scramble=False):
                 w.verify()
                 res["tables"] = res_tables(tables)
                 if methods:
-                    tables = dict(tables)
+                    tables = keep(kp, "tables", dict(tables), ctx)
                     w = Watch(ctx, "minimise_tables", tables=tables)
                     mt = rt.minimise_tables(tables, None, methods)
                     w.verify()
@@ -637,7 +692,8 @@ def execute(desc, ctx=None, mutate=False, seed=0, scramble=False):
         mods = (imp("rig.routing_table.ordered_covering"),
                 imp("rig.routing_table.remove_default_routes"),
                 imp("rig.routing_table.minimise"))
-        table = c04.build(t, rt.RoutingTableEntry, rt.Routes)
+        table = keep(t.get("keep"), "table",
+                     c04.build(t, rt.RoutingTableEntry, rt.Routes), ctx)
         w = Watch(ctx, fn, table=table)
         try:
             new = c04.call_min(mods, fn, table, target)
@@ -844,6 +900,7 @@ def setup(tier):
 
 def run(case, ctx):
     _KEPT_MACHINES.clear()
+    _KEPT.clear()
     for k_, t_ in enumerate(c08.TAGSETS):   # undo what a broken tree did
         APP_TAG_SETS[k_].clear()
         APP_TAG_SETS[k_].update(t_)
